@@ -114,6 +114,14 @@ func selfCond(pred, succ *ssa.BasicBlock) []Cond {
 func (a *FA) leavesOf(v ssa.Value, blk *ssa.BasicBlock, depth int) []condLeaf {
 	base := unwrapErr(v)
 	p, ok := base.(*ssa.Phi)
+	if ok && depth > 0 {
+		// a loop-header phi is "the variable at the loop head", not a merge of alternatives here
+		for _, pr := range p.Block().Preds {
+			if p.Block().Dominates(pr) {
+				ok = false
+			}
+		}
+	}
 	if !ok || depth > 8 {
 		var out []condLeaf
 		for _, cs := range a.CondsDNF(blk, 0) {
